@@ -54,3 +54,18 @@ def random_thermo(d, nr, scale=1.0):
     bFT1 = nr.uniform(1.0, 2.0, len(d.om1_jn))
     bFT2 = nr.uniform(1.0, 2.0, len(d.om2_jn))
     return bFV, bFS, bFSV, bFT0, bFT1, bFT2
+
+
+class Unencodable(Exception):
+    """an implementation output that has no image in the model's value domain"""
+
+
+def encode(V, key, replay, fn):
+    """build a Coq term from IMPLEMENTATION outputs; an output that cannot be encoded (nat out of range, value off the
+    exact grid, tag/key the implementation should not have produced, NaN ...) is a violation with its input as replay,
+    never a harness crash.  Returns the term or None."""
+    try:
+        return fn()
+    except (Unencodable, AssertionError, KeyError, ValueError, TypeError, OverflowError) as e:
+        V("implementation output cannot be expressed as a value of the model (%s: %s)" % (type(e).__name__, e), replay, key)
+        return None
